@@ -4,6 +4,7 @@ use crate::json::J;
 
 pub mod bitmap;
 pub mod mem;
+pub mod tear;
 
 pub struct RunInfo {
     /// non-trivial by the scenario's stated rule
@@ -45,6 +46,7 @@ pub fn all_scenarios() -> Vec<&'static dyn Scenario> {
     v.push(&bitmap::CANON);
     v.push(&bitmap::MODEL);
     v.push(&mem::MEM);
+    v.push(&tear::TEAR);
     v
 }
 
@@ -89,6 +91,15 @@ pub fn checks() -> Vec<Check> {
         assumptions: COMMON_ASSUMPTIONS.to_vec(),
         real: vec!["vm_memory::volatile_memory (VolatileSlice, VolatileRef, VolatileArrayRef, copy_slice_impl), Bytes, MmapRegion (compiled from /repo working tree)", "kernel mmap for the region container"],
         stub: vec!["guest RAM: the simulator's own arena with PROT_NONE guard pages and canary bytes", "actor interleaving at operation granularity (seeded)"],
+        needs_seam_events: true,
+    });
+    v.push(Check {
+        prop: "C06",
+        parts: vec![Part { scen: &tear::TEAR, xen: false, quick: 300_000, thorough: 12_000_000 }],
+        rule: "runs are seeded races of one writer (alternating two values, <= 3 writes) and one reader (<= 3 reads) on the same 1-8 guest bytes through one of 12 entry points each, at slice / region / guest-memory level, switched before every primitive guest access (and between the bytes of a bulk copy); distinct = distinct event-log hash; non-trivial = a context switch happened inside an operation and at least one side is in the class for which atomicity is demanded (length 1/2/4/8, guest and local address aligned to it)",
+        assumptions: COMMON_ASSUMPTIONS.to_vec(),
+        real: vec!["vm_memory copy_slice_impl, VolatileSlice/VolatileRef/VolatileArrayRef, Bytes at slice/region/guest-memory level, in-memory stream adapters, atomic load/store (compiled from /repo working tree)"],
+        stub: vec!["thread scheduling (coroutines)", "the second party: a simulated vCPU doing one raw aligned access", "memcpy of the > 8-byte branch replaced by a byte-wise copy with a scheduling point between bytes (models a tearing memcpy)"],
         needs_seam_events: true,
     });
     v
